@@ -33,7 +33,7 @@ def abort_frame(index, sub, code):
 class RefSdoServer:
     def __init__(self, store=None, upload_size_indicated=True, expedited_size_indicated=True,
                  expedited_upload=True, blk_sizes=(127,), crc_support=True, block_upload_support=True,
-                 block_upload_size_indicated=True, refuse=None):
+                 block_upload_size_indicated=True, refuse=None, segment_fill=None):
         self.store = dict(store or {})          # (index, sub) -> bytes
         self.upload_size_indicated = upload_size_indicated
         self.expedited_size_indicated = expedited_size_indicated
@@ -42,6 +42,8 @@ class RefSdoServer:
         self.crc_support = crc_support
         self.block_upload_support = block_upload_support
         self.block_upload_size_indicated = block_upload_size_indicated   # s bit of the block upload initiate response
+        self.segment_fill = segment_fill        # data bytes per upload segment, cycled (0..7; None = 7): CiA 301 lets a
+                                                # server fill any segment, not only the last one, partly (n > 0 with c = 0)
         self.refuse = refuse                    # callable(kind, mux, data|None) -> abort code | None
         self.read_hook = None                   # callable(mux) -> bytes | None: value computed at upload time
         self.violations = []                    # (mechanism, message)
@@ -232,6 +234,7 @@ class RefSdoServer:
         self.value = value
         self.pos = 0
         self.toggle = 0
+        self._fill_i = 0
         self.state = "ul"
         if self.upload_size_indicated:
             return [struct.pack("<BHBL", 0x41, index, sub, n)]
@@ -250,7 +253,12 @@ class RefSdoServer:
         if t != self.toggle:
             self._v("client-toggle", f"upload segment request toggle {t}, expected {self.toggle}")
             return self._abort(ABORT_TOGGLE)
-        chunk = self.value[self.pos:self.pos + 7]
+        room = 7
+        if self.segment_fill:
+            room = self.segment_fill[self._fill_i % len(self.segment_fill)]
+            self._fill_i += 1
+            self.steps_seen.add("ul_seg_short" if room < 7 else "ul_seg")
+        chunk = self.value[self.pos:self.pos + room]
         self.pos += len(chunk)
         last = self.pos >= len(self.value)
         resp = bytes([(t << 4) | ((7 - len(chunk)) << 1) | (1 if last else 0)]) + chunk.ljust(7, b"\x00")
